@@ -166,7 +166,8 @@ class UCCGD(Ansatz):
         qubit_op = self._get_qubit_operator()
         qu_op_dict = qubit_op.terms
 
-        if set(qu_op_dict) != set(self.qu_op_dict):
+        # Rebuild if the terms or their order (which defines the order of the exponentials) have changed
+        if list(qu_op_dict) != list(self.qu_op_dict):
             self.build_circuit(var_params)
         else:
             for i, (term, _) in enumerate(self.pauli_order):
